@@ -52,7 +52,13 @@ EmitOK(e) ==
   /\ e.debug = (s.level <= 0) /\ e.info = (s.level <= 1)         \* its own level
   /\ e.stacktop = s.stack                                        \* an error logged through it carries a stack iff ITS path called Stack()
   /\ ~e.stacknested                                              \* temporaries (zerolog.Dict() built before or after the event) never do
-Sig(e) == IF branched THEN "CtxValueBranchedSig" ELSE ""
+\* the recorded finding: a Context VALUE was derived from twice and an emission's CONTEXT FIELDS are not its own - nothing else
+\* about the emission is off (hooks, Go context, destination, level, stack flag are value fields, not bytes of the shared array)
+OnlyFieldsOff(e) == LET s == g[e.i] IN
+                    /\ e.writes = 1 /\ Seq1(e.fields) # s.fields /\ Seq1(e.hooks) = s.hooks /\ e.dest = s.dest
+                    /\ \A k \in 1..Len(e.hookctx) : e.hookctx[k] = s.goctx
+                    /\ e.debug = (s.level <= 0) /\ e.info = (s.level <= 1) /\ e.stacktop = s.stack /\ ~e.stacknested
+Sig(e) == IF branched /\ OnlyFieldsOff(e) THEN "CtxValueBranchedSig" ELSE ""
 
 TNext ==
   /\ l <= Len(TraceLog) /\ l' = l + 1
